@@ -46,6 +46,14 @@ def configs(ctx):
     out.append(("sym", 3, "plus", 0, "wf", 6, 1.5, 1, False, False))
     out.append(("sym", 4, "plus", 0, "wf", 6 if q else 7, 2.5, 1, False, False))
     out.append(("sym", 4, "plus", 1, "wf", 6 if q else 7, 2.5, 1, False, False))
+    # the origin of the axis is arbitrary: lambda_0 = 0.0, cap = 0.0, an inner interface = 0.0, everything negative
+    out.append(("sym@-0.5", 3, "minus", 0, "sh", 5, None, None, False, False))
+    out.append(("sym@-0.5", 3, "plus", 0, "sh", 5, None, None, False, False))
+    out.append(("sym@-1.5", 3, "plus", 1, "sh", 5 if q else 7, None, None, False, False))
+    out.append(("sym@-10", 3, "plus", 1, "sh", 5, None, None, False, False))
+    out.append(("sym@-2.5", 4, "plus", 0, "wf", 6, 2.5, 1, False, False))
+    out.append(("sym@-2.5", 4, "plus", 1, "wf", 6, 2.5, 1, False, False))
+    out.append(("sym@-1.5", 3, "plus", 1, "wf", 6, None, 2, False, False))
     if not q:
         out.append(("sym", 4, "plus", 0, "wf", 6, 2.5, 2, False, False))
         out.append(("sym", 4, "plus", 2, "wf", 7, None, 1, False, False))
@@ -54,7 +62,13 @@ def configs(ctx):
 
 
 def mkdyn(name, B):
+    name = name.split("@")[0]
     return lat.SYMMETRIC(B) if name == "sym" else lat.DRIFTED(B)
+
+
+def shift_of(name):
+    """'sym@-2.5': the same configuration with the order-parameter axis moved by -2.5 (see vf/lattice.SHIFT)."""
+    return float(name.split("@")[1]) if "@" in name else 0.0
 
 
 def _job(args):
@@ -68,7 +82,8 @@ def _job(args):
 
         def patched(*a, **k):
             return fn_old(*a, **k)
-    K, recs, n = moves.kernel(dyn, kind, i, old, M, **kw) if not ld else _kernel_ld(dyn, kind, i, old, M)
+    with lat.shifted(shift_of(name)):
+        K, recs, n = moves.kernel(dyn, kind, i, old, M, **kw) if not ld else _kernel_ld(dyn, kind, i, old, M)
     bad = []
     idxs = set()
     outcomes = set()
@@ -100,7 +115,8 @@ def _kernel_ld(dyn, kind, i, old, M):
 def _swap_job(args):
     name, B, M, old0, old1, move1, cap = args
     dyn = mkdyn(name, B)
-    K, recs, n = moves.swap_kernel(dyn, old0, old1, M, move1=move1, cap=cap)
+    with lat.shifted(shift_of(name)):
+        K, recs, n = moves.swap_kernel(dyn, old0, old1, M, move1=move1, cap=cap)
     bad = []
     outcomes = set()
     for r in recs:
@@ -163,7 +179,7 @@ def run(ctx):
         sjobs = []
         for name, B, M, move1, cap in (("sym", 3, 5 if ctx.quick else 7, "sh", None),
                                        ("sym", 3, 5 if ctx.quick else 6, "wf", None),
-                                       ("sym", 4, 6, "wf", 2.5)):
+                                       ("sym", 4, 6, "wf", 2.5), ("sym@-0.5", 3, 5, "sh", None), ("sym@-2.5", 4, 6, "wf", 2.5)):
             dyn = mkdyn(name, B)
             for o0 in lp.enumerate_paths(dyn, "minus", M):
                 for o1 in lp.enumerate_paths(dyn, "plus", M, i=0):
@@ -272,6 +288,12 @@ def _selfcheck():
 
 
 def replay(data):
+    name = data["cfg"][0] if "cfg" in data else (data["key"][0] if "key" in data else "sym")
+    with lat.shifted(shift_of(str(name))):
+        return _replay(data)
+
+
+def _replay(data):
     kind = data["kind"]
     out = []
     if kind in ("exec", "idx", "kernel"):
